@@ -320,6 +320,53 @@ Print Assumptions vm_refines_ref_F2_partial.
 
 (* ---- 9. non-vacuity ---- *)
 
+(* ---- values that flow through tests, concat and apply (round 4) ---- *)
+
+(* every float is true, 0.0 included: cond / and / or / not / the test of a for loop all go through truthy *)
+Theorem float_is_true : forall h, truthy (VFlt h) = true.
+Proof. exact RefSemProofs.float_is_true_ref. Qed.
+
+(* concat of two or more lists is the list of all elements in order; lists are values, so no argument
+   changes and the store is untouched *)
+Theorem concat_lists_is_append : forall ap v l l2 ls s,
+  prim_apply ap PConcat (list_val (v :: l) :: list_val l2 :: map list_val ls) s
+  = (Done (list_val ((v :: l) ++ l2 ++ concat ls)), s).
+Proof. exact RefSemProofs.concat_lists_ref. Qed.
+Print Assumptions concat_lists_is_append.
+
+(* apply hands the elements of its second argument to the function as they are (not evaluated again;
+   an array among them is the same array) *)
+Theorem apply_passes_values : forall ap f a o s, is_fn f = true -> nth_error (arrays s) a = Some o ->
+  prim_apply ap PApply [f; VArr a] s = ap f (a_elems o) s.
+Proof. exact RefSemProofs.apply_passes_values_ref. Qed.
+Theorem apply_passes_list : forall ap f v l s, is_fn f = true ->
+  prim_apply ap PApply [f; list_val (v :: l)] s = ap f (v :: l) s.
+Proof. exact RefSemProofs.apply_passes_list_ref. Qed.
+
+(* (list (and 0.0 7) (or 0.0 7) (not 0.0) (cond 0.0 1 2)) = (7 0.0 false 1) *)
+Example ex_float_zero_true :
+  o_res (eval_program 50 [ECall (EVar 14) [EAnd [EQuote (DFlt 0); EInt 7]; EOr [EQuote (DFlt 0); EInt 7];
+                                          ECall (EVar 10) [EQuote (DFlt 0)];
+                                          ECond [(EQuote (DFlt 0), EInt 1)] (EInt 2)]])
+  = Done (SvPair (SvInt 7) (SvPair (SvFlt 0) (SvPair (SvBool false) (SvPair (SvInt 1) SvNil)))).
+Proof. vm_compute. reflexivity. Qed.
+
+(* (def b (quote (3 4))) (concat (quote (1 2)) b (quote (5))) b  leaves b = (3 4) *)
+Example ex_concat_keeps_arguments :
+  o_res (eval_program 50 [EDef 100 (EQuote (DList [DInt 3; DInt 4]));
+                          ECall (EVar 24) [EQuote (DList [DInt 1; DInt 2]); EVar 100; EQuote (DList [DInt 5])];
+                          EVar 100])
+  = Done (SvPair (SvInt 3) (SvPair (SvInt 4) SvNil)).
+Proof. vm_compute. reflexivity. Qed.
+
+(* (def a [1 2]) (apply aset [a 0 9]) a  = [9 2]: the callee gets the array itself *)
+Example ex_apply_identity :
+  o_res (eval_program 50 [EDef 100 (EArr [EInt 1; EInt 2]);
+                          ECall (EVar 21) [EVar 17; EArr [EVar 100; EInt 0; EInt 9]];
+                          EVar 100])
+  = Done (SvArr [SvInt 9; SvInt 2]).
+Proof. vm_compute. reflexivity. Qed.
+
 (* (for la: [(def i 0) (< i 3) (set i (+ i 1))] (for [(def j 0) (< j 3) (set j (+ j 1))]
       (trace j) (cond (== j 1) (break la:) nil)))  is in F1 and the VM run gives nil with trace 0 1 *)
 Example ex_f1_runs :
